@@ -253,6 +253,76 @@ def _root_local(e):
     return None
 
 
+def name_text(u, fn, e, env=None, depth=0):
+    """The text of a file-name expression, as far as literals, constant integers, locals, members initialised in the
+    constructors and helper functions of the manager determine it (unknown pieces are dropped); None if nothing is known."""
+    env = env or {}
+    if e is None or depth > 8:
+        return None
+    e = C.strip_casts(e)
+    k = e.get("k")
+    if k == "Str":
+        return e.get("v") or ""
+    if k == "Int":
+        return str(int(e["v"]))
+    if k == "Ctor" and len(e.get("a", [])) == 1:
+        return name_text(u, fn, e["a"][0], env, depth + 1)
+    if k == "Ref" and e.get("id") in env:
+        return env[e["id"]]
+    if k == "Ref" and "id" in e:
+        for s_ in C.walk_stmt(fn["body"]):
+            if s_.get("k") == "Decl":
+                for d_ in s_["d"]:
+                    if d_["id"] == e["id"] and d_.get("init") is not None:
+                        return name_text(u, fn, d_["init"], env, depth + 1)
+        return ""
+    m = C.member_name(e)
+    if m:
+        for c_ in u.methods_of("RestartManager"):
+            if c_.get("ctor"):
+                for ini in c_.get("inits") or []:
+                    if ini.get("member") == m and ini.get("x") is not None:
+                        t = name_text(u, c_, ini["x"], {}, depth + 1)
+                        if t:
+                            return t
+        return ""
+    if k == "Call" and e.get("obj") is not None and e.get("n") in ("c_str", "str"):
+        return name_text(u, fn, e["obj"], env, depth + 1)
+    if (k == "Bin" and e.get("op") == "+") or (k == "Call" and e.get("op") == "+"):
+        args = [e["a"], e["b"]] if k == "Bin" else (([e["obj"]] if e.get("obj") is not None else []) + list(e["a"]))
+        parts = [name_text(u, fn, a_, env, depth + 1) or "" for a_ in args]
+        return "".join(parts)
+    if k == "Call" and e.get("fn") and not e.get("op"):
+        for hm in u.methods_of("RestartManager"):
+            if hm["full"].split("(")[0] == e["fn"] and hm.get("body") and len(hm["params"]) == len(e["a"]):
+                sub = {}
+                for p_, a_ in zip(hm["params"], e["a"]):
+                    if "id" in p_:
+                        sub[p_["id"]] = name_text(u, fn, a_, env, depth + 1) or ""
+                # `return a + b;` or a stream filled with << and returned through .str()
+                streams = {}
+                for s_ in C.walk_stmt(hm["body"]):
+                    for y in (C.walk(s_) if s_.get("k") not in ("Block", "If", "For", "While", "Do", "Decl", "Return") else ()):
+                        if C.is_call(y) and y.get("op") == "<<":
+                            root, ops = y, []
+                            while C.is_call(root) and root.get("op") == "<<":
+                                a2 = ([root["obj"]] if root.get("obj") is not None else []) + root["a"]
+                                ops.append(a2[1])
+                                root = C.strip_casts(a2[0])
+                            if root.get("k") == "Ref" and "id" in root and len(ops) > len(streams.get(root["id"], [])):
+                                streams[root["id"]] = list(reversed(ops))
+                for s_ in C.walk_stmt(hm["body"]):
+                    if s_.get("k") == "Return" and s_.get("x") is not None:
+                        r0 = C.strip_casts(s_["x"])
+                        while r0.get("k") == "Ctor" and len(r0.get("a", [])) == 1:
+                            r0 = C.strip_casts(r0["a"][0])
+                        if r0.get("k") == "Call" and r0.get("n") == "str" and r0.get("obj") is not None and \
+                                C.strip_casts(r0["obj"]).get("id") in streams:
+                            return "".join(name_text(u, hm, o_, sub, depth + 1) or "" for o_ in streams[C.strip_casts(r0["obj"])["id"]])
+                        return name_text(u, hm, s_["x"], sub, depth + 1)
+    return None
+
+
 def run(chk, prog):
     chk.explanation = (
         "Structural clauses of the rotation protocol decided on the CFG of "
@@ -475,6 +545,10 @@ def run(chk, prog):
                                             lit = "".join(z["v"] if z.get("k") == "Str" else
                                                           (str(C.const_int(y["a"][0])) if z.get("id") == pk else "")
                                                           for z in nodes)
+        if lit is None or ".0." not in lit:
+            lit2 = name_text(u, fn, x["a"][1])
+            if lit2 is not None:
+                lit = lit2
         chk.require(lit is not None and ".0." in lit, "U2", "rename target is backup 0", where(x, fn),
                     "target of the dump rename is %r, expected the index-0 backup name" % lit,
                     function=fn["qname"], construct="dump rename target")
@@ -513,10 +587,15 @@ def run(chk, prog):
 
     # helper functions that build a backup name from an index: name(k) streams k between "restart." and ".back"
     name_helpers = {}
+    name_helper_pos = {}
     for m in u.methods_of("RestartManager"):
-        if not m.get("body") or len(m["params"]) != 1 or "string" not in (m.get("ret") or m.get("t") or "string"):
+        if not m.get("body") or not m["params"] or "string" not in (m.get("ret") or m.get("t") or "string"):
             continue
-        pk = m["params"][0]["id"]
+        ipos = [i_ for i_, p_ in enumerate(m["params"]) if any(t_ in (p_.get("t") or "") for t_ in ("int", "long", "size_t"))
+                and "string" not in (p_.get("t") or "")]
+        if len(ipos) != 1:
+            continue
+        pk = m["params"][ipos[0]]["id"]
         streamed = [x for s2 in C.walk_stmt(m["body"]) for x in
                     (C.walk(s2) if s2.get("k") not in ("Block", "If", "For", "While", "Do", "Decl") else ())
                     if x.get("k") == "Ref" and x.get("id") == pk]
@@ -524,6 +603,7 @@ def run(chk, prog):
                 (C.walk(s2) if s2.get("k") not in ("Block", "If", "For", "While", "Do", "Decl") else ()) if x.get("k") == "Str"]
         if len({id(x) for x in streamed}) == 1 and any("restart." in (t or "") for t in strs) and any(".back" in (t or "") for t in strs):
             name_helpers[m["full"].split("(")[0]] = m
+            name_helper_pos[m["full"].split("(")[0]] = ipos[0]
 
     names = {}          # string / stringstream local id -> set of index values it carries
     renamed = []        # (src index set, dst index set, value of the induction variable at that point)
@@ -540,7 +620,7 @@ def run(chk, prog):
                 continue
             break
         if e.get("k") == "Call" and e.get("fn") in name_helpers and e["a"]:
-            return {sp.simplify(conv.conv(e["a"][0], env))}
+            return {sp.simplify(conv.conv(e["a"][name_helper_pos[e["fn"]]], env))}
         if e.get("k") == "Ref" and e.get("id") in names:
             return set(names[e["id"]])
         if e.get("k") == "Ref" and e.get("id") == dump_local["id"]:
@@ -677,7 +757,7 @@ def run(chk, prog):
 
     # ---- U7: explicit deletions in the rotation never hit a backup that is to be kept (c14_remove.py) ----------------
     from . import c14_remove
-    n_u7 = c14_remove.rule_U7(chk, fn, g, shift_renames, dump_renames, dump_local, name_helpers)
+    n_u7 = c14_remove.rule_U7(chk, fn, g, shift_renames, dump_renames, dump_local, name_helpers, name_helper_pos)
     chk.floor("U7", n_u7, 1)
 
     # ---- U8: no other method of the manager deletes a dump or a backup ------------------------------------------------
